@@ -10,6 +10,7 @@ package verifshim
 
 import (
 	"sync"
+	"time"
 )
 
 // Aliases for everything the shim does not model, so that a changed tree that
@@ -36,11 +37,36 @@ type Mutex struct {
 	vc     []int
 }
 
+// DeadlockWait, if not zero, bounds how long an uncontrolled Lock/RLock waits
+// before it panics with a "lock never released" message.  The sequential
+// history checks (every case owns its engines, critical sections last
+// microseconds) set it so that a leaked lock is reported instead of hanging
+// the check forever.
+var DeadlockWait time.Duration
+
+func lockOrPanic(try func() bool, block func(), what string) {
+	if DeadlockWait == 0 {
+		block()
+		return
+	}
+	if try() {
+		return
+	}
+	deadline := time.Now().Add(DeadlockWait)
+	for time.Now().Before(deadline) {
+		time.Sleep(200 * time.Microsecond)
+		if try() {
+			return
+		}
+	}
+	panic("verifshim: " + what + " was not released within " + DeadlockWait.String() + " (leaked lock / deadlock)")
+}
+
 // Lock implements sync.Locker.
 func (m *Mutex) Lock() {
 	s := active
 	if s == nil {
-		m.real.Lock()
+		lockOrPanic(m.real.TryLock, m.real.Lock, "Mutex")
 		return
 	}
 	t := s.point(Op{Kind: OpLock, Mu: m})
@@ -93,7 +119,7 @@ type RWMutex struct {
 func (m *RWMutex) Lock() {
 	s := active
 	if s == nil {
-		m.real.Lock()
+		lockOrPanic(m.real.TryLock, m.real.Lock, "RWMutex")
 		return
 	}
 	t := s.point(Op{Kind: OpWLock, RW: m})
@@ -122,7 +148,7 @@ func (m *RWMutex) Unlock() {
 func (m *RWMutex) RLock() {
 	s := active
 	if s == nil {
-		m.real.RLock()
+		lockOrPanic(m.real.TryRLock, m.real.RLock, "RWMutex (read)")
 		return
 	}
 	t := s.point(Op{Kind: OpRLock, RW: m})
